@@ -637,19 +637,22 @@ def loops_of(ft):
         lp.source = None
         lp.item_switch = None
         lp.some_succ = None
+        lp.done_succ = None
         if len(lp.next) == 1:
             c = lp.next[0]
             lp.item = ("payload", "Some", ("call", c.callee, tuple(c.args), (ft.path, c.block)))
             lp.source = iter_source(ft, c.args[0])
-            for b in body:
+            for b in lp.own:
                 t = ft.blocks[b]["term"]
                 if t["k"] == "switch":
                     d = ft.switch_term(b)
-                    if d[0] == "discr" and d[1][0] == "call" and d[1][1].endswith("::next"):
+                    if d[0] == "discr" and d[1][0] == "call" and d[1][1].endswith("::next") and d[1][3] == (ft.path, c.block):
                         lp.item_switch = b
                         for v, bb in t["targets"]:
                             if int(v) == 1 and bb in body:
                                 lp.some_succ = bb
+                            if int(v) == 0:
+                                lp.done_succ = bb
         lp.exits = [(b, s) for b in body for s in ft.cfg.succ[b] if s not in body]
         out.append(lp)
     return out
